@@ -115,6 +115,7 @@ Definition decode (code : Z) (a : list Z) (rows : list (list Z)) : option op :=
   | 128, [s] => Some (IntoParIterElementsIdx s)
   | 130, [s] => Some (DropOp s)
   | 140, [s; n; f; axis] => Some (ThreadedVectorsMut s n f axis)
+  | 141, [s; front; adaptor; axis] => Some (ThreadedScan s front adaptor axis)
   | _, _ => None
   end.
 
